@@ -61,6 +61,10 @@ func c08Events() []c08Event {
 	for i, n := range c08NewNames {
 		ev = append(ev, c08Event{NewOp, "new(l=" + n + ")", i, 0})
 	}
+	// requested reserved index (ω12): 0 is used above; 50 is free, 200 is taken. Only matters in the
+	// worlds where the caller is the registrar (x_s = CreateAcct, i < S = 2^16).
+	ev = append(ev, c08Event{NewOp, "new(l=1,i=50)", 1, 1})
+	ev = append(ev, c08Event{NewOp, "new(l=1,i=200)", 1, 2})
 	for t, tn := range c08ToNames {
 		for a, an := range c08AmtNames {
 			ev = append(ev, c08Event{TransferOp, "transfer(" + tn + "," + an + ")", t, a})
@@ -74,7 +78,9 @@ func c08Events() []c08Event {
 	return ev
 }
 
-var c08WorldNames = []string{"rich", "exact", "below", "near2^64", "above2^32"}
+var c08WorldNames = []string{"rich", "exact", "below", "near2^64", "above2^32", "rich+registrar"}
+
+var c08NewIndex = []uint64{0, 50, 200}
 
 type c08World struct {
 	Regs    Registers
@@ -87,7 +93,7 @@ func c08Build(world int) *c08World {
 	caller := hcAccount(0, types.OpaqueHash{1}, map[string][]byte{"k": {1, 2}}, nil, nil)
 	thr := hcThreshold(hcBig(uint64(caller.ServiceInfo.Items)), hcBig(uint64(caller.ServiceInfo.Bytes)), big.NewInt(0)).Uint64()
 	switch world {
-	case 0:
+	case 0, 5:
 		caller.ServiceInfo.Balance = types.U64(thr + 1_000_000)
 	case 1:
 		caller.ServiceInfo.Balance = types.U64(thr)
@@ -109,6 +115,11 @@ func c08Build(world int) *c08World {
 		Assign:          types.ServiceIDList{0, 0},
 		Authorizers:     types.AuthQueues{{}, {}},
 		AlwaysAccum:     types.AlwaysAccumulateMap{},
+	}
+	if world == 5 {
+		ps.CreateAcct = c08Caller // the caller is the registrar: new(i < 2^16) takes the requested index
+	} else {
+		ps.CreateAcct = 77777
 	}
 	w := &c08World{LastNew: c08Missing}
 	w.Args = hcAccCtx(ps, c08Caller, c08Slot, types.Entropy{3}, types.StateKeyVals{}, nil)
@@ -239,7 +250,7 @@ func (w *c08World) apply(e c08Event) (out OmegaOutput, arg uint64, target types.
 	case NewOp:
 		w.Regs[7] = c08Base + c08OffCode
 		w.Regs[8] = arg
-		w.Regs[9], w.Regs[10], w.Regs[11], w.Regs[12] = 1, 2, 0, 0
+		w.Regs[9], w.Regs[10], w.Regs[11], w.Regs[12] = 1, 2, 0, c08NewIndex[e.B]
 	case TransferOp:
 		w.Regs[7] = uint64(target)
 		w.Regs[8] = arg
@@ -255,8 +266,9 @@ func (w *c08World) apply(e c08Event) (out OmegaOutput, arg uint64, target types.
 	gas := Gas(1_000_000)
 	importID := w.Args.AccumulateArgs.ResultContextX.ImportServiceID
 	out, panicked, msg, site = hcCall(AccumulateOmegas[e.Op], e.Op, &w.Regs, w.Mem, &gas, &w.Args, AccumulateOmegas)
-	if !panicked && e.Op == NewOp && out.ExitReason == ExitContinue && w.Regs[7] == uint64(importID) {
-		w.LastNew = importID
+	_ = importID
+	if !panicked && e.Op == NewOp && out.ExitReason == ExitContinue && hcErrName(w.Regs[7]) == "" {
+		w.LastNew = types.ServiceID(w.Regs[7]) // x_i, or the requested reserved index for the registrar
 	}
 	return
 }
@@ -314,7 +326,14 @@ func c08Step(r *vlib.Run, evs []c08Event, world int, hist []int, check bool) str
 		if success {
 			cls = "ok"
 		}
-		r.Class(fmt.Sprintf("op=%s exit=%s result=%s world=%s", opn, hcExitName(out.ExitReason), cls, c08WorldNames[world]))
+		branch := ""
+		if e.Op == NewOp && success {
+			branch = " id=import"
+			if w.Regs[7] < 1<<16 {
+				branch = " id=reserved"
+			}
+		}
+		r.Class(fmt.Sprintf("op=%s exit=%s result=%s%s world=%s", opn, hcExitName(out.ExitReason), cls, branch, c08WorldNames[world]))
 		reported := false
 		viol := func(kind, key, detail string) {
 			reported = true
